@@ -1084,6 +1084,9 @@ func (pa *path) addReaderPost(req defs.PathAddReaderReq) {
 
 // reloadConf is called by pathManager.
 func (pa *path) reloadConf(newConf *conf.Path) {
+	verifOnReloadConfEnter(pa, newConf)
+	defer verifOnReloadConfExit(pa, newConf)
+
 	select {
 	case pa.chReloadConf <- newConf:
 	case <-pa.ctx.Done():
